@@ -22,7 +22,7 @@ G = [
     ("QueryBuilder.on_conflict", {"_insert_table"}, "QueryException", {"_on_conflict"}, {}),
     ("QueryBuilder.do_update", {"_on_conflict_do_nothing"}, "QueryException", {"_on_conflict_do_updates"}, {}),
     ("QueryBuilder.do_nothing", {"_on_conflict_do_updates"}, "QueryException", {"_on_conflict_do_nothing"}, {}),
-    ("QueryBuilder.where", {"_on_conflict_do_nothing"}, "QueryException", {"_on_conflict_wheres", "_on_conflict_do_update_wheres"}, {"nested": True}),
+    ("QueryBuilder.where", {"_on_conflict_do_nothing"}, "QueryException", {"_on_conflict_wheres", "_on_conflict_do_update_wheres"}, {"nested": True, "under": {"_on_conflict"}}),
     ("QueryBuilder.where", {"_on_conflict_fields"}, "QueryException", set(), {"nested": True, "label": "fieldless ON CONFLICT WHERE"}),
     ("QueryBuilder._on_conflict_sql", {"_on_conflict_fields"}, "QueryException", set(), {"nested": True, "label": "no handler"}),
     ("QueryBuilder._on_conflict_sql", {"_on_conflict_do_updates", "_on_conflict_fields"}, "QueryException", set(), {"label": "fieldless do update"}),
@@ -72,26 +72,35 @@ def collect_guards(f: FuncInfo):
     out = []
     # what a local stands for: the receiver's attributes read by the expression it was bound to
     # (`fields = bool(self._on_conflict_fields)`, `if (table := self._insert_table or self._update_table)`)
-    local_reads: dict[str, set] = {}
-    for _ in range(3):
-        for n in ast.walk(f.node):
-            tgt = val = None
-            if isinstance(n, ast.Assign) and len(n.targets) == 1 and isinstance(n.targets[0], ast.Name):
-                tgt, val = n.targets[0].id, n.value
-            elif isinstance(n, ast.NamedExpr) and isinstance(n.target, ast.Name):
-                tgt, val = n.target.id, n.value
-            if tgt is not None:
-                r = self_reads(val, selfn)
-                for x in ast.walk(val):
-                    if isinstance(x, ast.Name) and x.id in local_reads:
-                        r |= local_reads[x.id]
-                local_reads[tgt] = local_reads.get(tgt, set()) | r
+    bindings: list = []      # (line, name, value expression), in source order
+    for n in ast.walk(f.node):
+        if isinstance(n, ast.Assign) and len(n.targets) == 1 and isinstance(n.targets[0], ast.Name):
+            bindings.append((n.lineno, n.targets[0].id, n.value))
+        elif isinstance(n, ast.NamedExpr) and isinstance(n.target, ast.Name):
+            bindings.append((n.lineno, n.target.id, n.value))
+    bindings.sort(key=lambda b: b[0])
+
+    def local_reads_at(name: str, line: int, depth: int = 0) -> set:
+        """attributes of the receiver a local stands for at `line`: the bindings made before that line (a later
+        re-binding, e.g. in the branch the test guards, says nothing about what the test looked at)"""
+        r = set()
+        if depth > 3:
+            return r
+        for ln, tgt, val in bindings:
+            if tgt != name or ln > line:
+                continue
+            r |= self_reads(val, selfn)
+            for x in ast.walk(val):
+                if isinstance(x, ast.Name) and x.id != name:
+                    r |= local_reads_at(x.id, ln, depth + 1)
+        return r
 
     def reads_of(t):
         r = self_reads(t, selfn)
+        line = getattr(t, "lineno", 10 ** 9)
         for x in ast.walk(t):
-            if isinstance(x, ast.Name) and isinstance(x.ctx, ast.Load) and x.id in local_reads:
-                r |= local_reads[x.id]
+            if isinstance(x, ast.Name) and isinstance(x.ctx, ast.Load):
+                r |= local_reads_at(x.id, line)
         return r
 
     def rec(stmts, tests, loops, top_idx, in_else, in_handler):
@@ -260,6 +269,15 @@ def check(program: Program, run: Run) -> None:
         if ok and protects and not any(opt.get(k) for k in ("nested", "else_branch", "in_handler", "second", "in_loop_over", "tail")) and g["depth"] > 1 \
                 and not (attrs and all(ta and ta <= attrs for ta in g.get("test_attrs", [set()]))):      # (nested tests that all read the guarded attributes are one guard)
             ok, why = False, (f"the guard is nested under another condition, so the paths that write {sorted(protects)} without satisfying that condition are not protected")
+        if ok and opt.get("under") is not None:
+            # a guard that may sit in one branch of a mode switch (`if not self._on_conflict: ... else: <guards>`): the tests
+            # around it may read the switch and the guarded attributes, nothing else -- one more condition around it
+            # (`if not self._on_conflict_fields: if self._on_conflict_do_nothing: raise`) lets the other paths through
+            extra = set()
+            for ta in g.get("test_attrs", []):
+                extra |= ta - attrs - set(opt["under"])
+            if extra:
+                ok, why = False, f"the guard only runs under a further condition over {sorted(extra)}: the paths on which that condition fails are not protected"
         if ok and protects and not opt.get("nested"):
             fw = first_write_index(f, protects)
             if fw is not None and g["top"] > fw:
@@ -368,6 +386,18 @@ def check(program: Program, run: Run) -> None:
         return Sub().visit(_copy.deepcopy(e))
 
     raising = [n for n in ast.walk(jv.node) if isinstance(n, ast.If) and any(isinstance(x, ast.Raise) for b in n.body for x in ast.walk(b))]
+    if not raising:
+        # the guard-clause spelling: `if not <missing>: return` followed by the raise at the same level
+        body = jv.node.body
+        for i, st in enumerate(body):
+            if (isinstance(st, ast.If) and not st.orelse and st.body and isinstance(st.body[-1], ast.Return) and st.body[-1].value is None
+                    and any(isinstance(x, ast.Raise) for x in body[i + 1:])):
+                t = st.test
+                neg = t.operand if isinstance(t, ast.UnaryOp) and isinstance(t.op, ast.Not) else ast.UnaryOp(op=ast.Not(), operand=t)
+                pseudo = ast.copy_location(ast.If(test=neg, body=[x for x in body[i + 1:] if isinstance(x, ast.Raise)][:1], orelse=[]), st)
+                ast.fix_missing_locations(pseudo)
+                raising = [pseudo]
+                break
     if not raising:
         raise AnalysisError("anchor vanished: JoinOn.validate has no guarded raise")
     test = expand_all(raising[0].test)
